@@ -34,6 +34,12 @@ Definition handle (req : sexp) : sexp :=
       | Some va => if op =? "neg" then sexp_of_outcome sexp_of_value (v_neg va) else bad "unop"
       | None => bad "value"
       end
+  | SList [Atom "eval"; c; e] =>
+      match ctx_of_sexp c, expr_of_sexp e with
+      | Some c', Some e' => sexp_of_result (eval c' e')
+      | None, _ => bad "ctx"
+      | _, None => bad "expr"
+      end
   | SList [Atom "echo"; a] =>
       match value_of_sexp a with
       | Some va => sexp_of_value va
